@@ -20,6 +20,9 @@
     hist <op> <op> ...                    -> ok <res> ... fin <Enc58str> <Checksum|nil>     (one object, from new(BtcAddr))
          ops: S:<hrp>:<ver>:<prog> | N (SegwitProg=nil) | E:<str> | C:<bytes>|C:nil | V:<n> | H:<bytes> | s (String()) | o (OutScript())
          res: s=<str> | o=<script|panic>
+    payout <start> <step> <step> ...      -> ok <out> ...   (Addr.Payout.run: COINBASE_ADDRESS = start, then
+         steps: T:<str> (`minadr <str>` in the text UI) | G (template: make_coinbase_tx) | V:<str> (rpc validateaddress)
+         outs:  t=<COINBASE_ADDRESS shown> | g=<script|panic> | v=<script|panic|invalid>
     b58sched <i,i,...|-> <bytes> <bytes> ... -> ok <str> <str> ...   (Encodeb58 of every argument when the callers' digit-loop
                                              steps are interleaved as given (then each runs to completion), in the variant the
                                              source has: Base58Sched.results with Gen.C15Shared.encodeRemShared)
@@ -27,6 +30,7 @@
 import GocoinV.Model.Addr
 import GocoinV.Model.AddrWif
 import GocoinV.Model.AddrObj
+import GocoinV.Model.AddrPayout
 import GocoinV.Model.Base58Sched
 import GocoinV.Model.Base58Str
 import GocoinV.Model.Bech32Str
@@ -55,6 +59,19 @@ def errClass : Addr.Err → String
 def optHex : Option Bytes → String
   | some b => Hex.encode b
   | none => "panic"
+
+def parseStep (t : String) : Option Addr.Payout.Step :=
+  match t.splitOn ":" with
+  | ["T", s] => (Hex.decode s).map .typed
+  | ["G"] => some .template
+  | ["V", s] => (Hex.decode s).map .validate
+  | _ => none
+
+def outStr : Addr.Payout.Out → String
+  | .shown c => s!"t={Hex.encode c}"
+  | .pays scr => s!"g={optHex scr}"
+  | .valid none => "v=invalid"
+  | .valid (some scr) => s!"v={optHex scr}"
 
 def parseOp (t : String) : Option Addr.Op :=
   match t.splitOn ":" with
@@ -182,6 +199,10 @@ def step (_ : Unit) (toks : List String) : Unit × String :=
       let fin := Addr.Obj.exec H ops Addr.Obj.zero
       let ck := match fin.cksum with | some c => Hex.encode c | none => "nil"
       ((), " ".intercalate ("ok" :: rs.map resStr ++ ["fin", Hex.encode fin.enc, ck]))
+  | "payout" :: start :: steps =>
+    match Hex.decode start, steps.mapM parseStep with
+    | some c, some st => ((), " ".intercalate ("ok" :: (Addr.Payout.run H st c).map outStr))
+    | _, _ => bad
   | "b58sched" :: sc :: args =>
     match parseSched sc, args.mapM Hex.decode with
     | some sched, some as =>
